@@ -694,6 +694,24 @@ func installRetries(n *harness.Node, r *orch.Result, seed int64, e forge.Eras) f
 	for _, a := range []uint32{e.GradingV2, e.TxConv, e.PEGPricing, e.OneWaypFCT, e.ConversionLimit, e.V4, e.V20, e.V20Dev, e.V202, e.V204, e.V204Burn, e.PIP10} {
 		special[a] = true
 	}
+	// every decision below is drawn from (height, seed, purpose) through one mixing function, so that two profiles
+	// never make the same choices at the same heights
+	mix := func(h uint32, salt uint64) uint64 {
+		x := uint64(h)*0x9E3779B97F4A7C15 ^ uint64(seed)*0xBF58476D1CE4E5B9 ^ salt*0x94D049BB133111EB
+		x ^= x >> 30
+		x *= 0xBF58476D1CE4E5B9
+		x ^= x >> 27
+		x *= 0x94D049BB133111EB
+		x ^= x >> 31
+		return x
+	}
+	mixH := func(h uint32, salt uint64) uint64 {
+		x := uint64(h)*0x9E3779B97F4A7C15 ^ salt*0x94D049BB133111EB
+		x ^= x >> 30
+		x *= 0xBF58476D1CE4E5B9
+		x ^= x >> 27
+		return x >> 7
+	}
 	var mu sync.Mutex
 	failedDB := map[uint32]bool{}
 	failedUp := map[uint32]bool{}
@@ -704,7 +722,7 @@ func installRetries(n *harness.Node, r *orch.Result, seed int64, e forge.Eras) f
 		if special[h] || (h >= e.V20 && h%144 == 0) {
 			// one kind of failure per height (a second failure could repair what the first one broke):
 			// which one is decided by seed and height
-			return (int64((uint64(h)*2654435761)>>9)+seed)%2 == k/2
+			return int64((mixH(h, 1)+uint64(seed>>1))%2) == k/2 // consecutive retries profiles (seeds two apart) take opposite kinds
 		}
 		return (int64(h)+seed)%4 == k
 	}
@@ -748,7 +766,7 @@ func installRetries(n *harness.Node, r *orch.Result, seed int64, e forge.Eras) f
 			// design, which C10 and C02 cover with fresh processes.)
 			mu.Lock()
 			h := nextH
-			if inBlock && h != 0 && h != e.V20Dev && h != e.V202 && pick(h, 0) && !failedDB[h] && (uint64(h)*2246822519>>4)%3 == 0 {
+			if inBlock && h != 0 && h != e.V20Dev && h != e.V202 && pick(h, 0) && !failedDB[h] && mix(h, 2)%3 == 0 {
 				failedDB[h] = true
 				mu.Unlock()
 				r.Count("blocks_applied_twice_after_a_failed_read_outside_the_transaction", 1)
@@ -765,21 +783,24 @@ func installRetries(n *harness.Node, r *orch.Result, seed int64, e forge.Eras) f
 				histN++
 			}
 			h := nextH
-			if retriesHistoryFocus && isHist && h != 0 && h != e.V20Dev && h != e.V202 && pick(h, 0) && !failedDB[h] && ((uint64(h)*40503>>3)%2 == 0 || (h >= e.V20 && h%144 == 0)) {
+			if retriesHistoryFocus && isHist && h != 0 && h != e.V20Dev && h != e.V202 && pick(h, 0) && !failedDB[h] && (mix(h, 3)%2 == 0 || (h >= e.V20 && h%144 == 0)) {
 				// (C17's runs) the failing statement is one of the block's history writes: the j-th
-				if histN == 1+int((uint64(h)*2654435761>>7+uint64(seed)*3)%12) {
+				if histN == 1+int(mix(h, 4)%12) {
 					failedDB[h] = true
 					mu.Unlock()
 					r.Count("blocks_applied_twice_after_a_failed_history_write", 1)
 					return vdriver.FailInstead, 0
 				}
 			}
-			if h != 0 && h != e.V20Dev && h != e.V202 && pick(h, 0) && !failedDB[h] {
+			// (at activation and snapshot heights every other failing block keeps to the last statement: what a block
+			// leaves behind in memory is complete only then)
+			lastOnly := (special[h] || (h >= e.V20 && h%144 == 0)) && mix(h, 5)%2 == 0 && !retriesHistoryFocus
+			if h != 0 && h != e.V20Dev && h != e.V202 && pick(h, 0) && !failedDB[h] && !lastOnly {
 				span := uint64(300)
 				if h >= e.V20 && h%144 == 0 {
 					span = 1500 // snapshot blocks: one payout and two history rows per holder
 				}
-				t := 1 + int((uint64(h)*2654435761>>5+uint64(seed)*7)%span)
+				t := 1 + int(mix(h, 6)%span)
 				if stmtN == t {
 					failedDB[h] = true
 					mu.Unlock()
